@@ -4,6 +4,7 @@ import (
 	"fmt"
 	"go/token"
 	"go/types"
+	"sort"
 	"strings"
 
 	"golang.org/x/tools/go/ssa"
@@ -434,6 +435,10 @@ func checkC03(c *Ctx, r *Report, tier string) {
 	persistConsumesAllParts(c, r, "C03.R8")
 	hardStateAlwaysWritten(c, r, "C03.R8")
 	logDeletionNotOnShutdown(c, r, "C03.R8")
+	r.Rule("C03.R9", "crash points inside one durable step: a local snapshot and the compaction it allows go into one write batch; entries are staged before the hard state; a received snapshot wipes the whole log; the recorded leader follows every SoftState (so that `send before persist` is only ever used by an actual leader)", 5)
+	snapshotAndCompactionAtomic(c, r, "C03.R9")
+	persistOrder(c, r, "C03.R9")
+	readyPartsIndependent(c, r, "C03.R9")
 }
 
 func c03R2(c *Ctx, r *Report, ro *roles) {
@@ -808,16 +813,26 @@ func startNodeRule(c *Ctx, r *Report, rule string) {
 			n++
 			// a dominating If whose condition depends on a read of a Storage-typed value
 			okG := false
+			reads := map[string]bool{}
 			for _, ifi := range allIfs(f) {
 				if !(guardedBy(cl.Block(), ifi, true) || guardedBy(cl.Block(), ifi, false)) {
 					continue
 				}
 				if condReadsStorage(ifi.Cond, 0) {
 					okG = true
+					storageMethodsRead(ifi.Cond, 0, reads)
 				}
 			}
 			if okG {
 				r.OK(rule, fnName(f), "StartNode", c.Pos(cl.Pos()), "bootstrap is control-dependent on a read of the log store (fresh-log test)")
+				hs := reads["InitialState"]
+				ext := reads["LastIndex"] || reads["FirstIndex"] || reads["Entries"]
+				var names []string
+				for k := range reads {
+					names = append(names, k)
+				}
+				sort.Strings(names)
+				r.Check(hs && ext, rule, fnName(f), "StartNode-fresh-means-nothing-persisted", c.Pos(cl.Pos()), "the fresh-storage test reads both the hard state and the extent of the log (reads: "+strings.Join(names, ", ")+"): a replica added to an existing group persists a term and a vote before its first entry — judged by the log alone it would be re-bootstrapped after a crash in that window, forget its vote and fabricate committed ConfChange entries")
 			} else {
 				r.Bad(rule, fnName(f), "StartNode", c.Pos(cl.Pos()), "StartNode is reached without consulting the log store: a restart with an existing log re-bootstraps (term reset to 1, bootstrap ConfChange entries appended on top of the old log and marked committed)")
 			}
@@ -826,6 +841,92 @@ func startNodeRule(c *Ctx, r *Report, rule string) {
 	if n == 0 {
 		r.Infof("%s: no StartNode call in the module (groups are only restarted)", rule)
 		r.OKTrivial(rule, "storage/raft", "StartNode", "-", "no StartNode call in the module")
+	}
+}
+
+// storageMethodsRead collects the names of the Storage methods a condition (through helpers taking the storage) reads.
+func storageMethodsRead(v ssa.Value, depth int, out map[string]bool) {
+	if depth > 8 || v == nil {
+		return
+	}
+	switch y := v.(type) {
+	case *ssa.BinOp:
+		storageMethodsRead(y.X, depth+1, out)
+		storageMethodsRead(y.Y, depth+1, out)
+	case *ssa.UnOp:
+		storageMethodsRead(y.X, depth+1, out)
+	case *ssa.Phi:
+		for _, e := range y.Edges {
+			storageMethodsRead(e, depth+1, out)
+		}
+		for _, p := range y.Block().Preds {
+			if ifi := condOf(p); ifi != nil {
+				storageMethodsRead(ifi.Cond, depth+1, out)
+			}
+		}
+	case *ssa.Extract:
+		storageMethodsRead(y.Tuple, depth+1, out)
+	case *ssa.Convert:
+		storageMethodsRead(y.X, depth+1, out)
+	case *ssa.ChangeType:
+		storageMethodsRead(y.X, depth+1, out)
+	case *ssa.Call:
+		if rv := recvArg(&y.Call); rv != nil && isStorageType(rv.Type()) {
+			out[callID(&y.Call).Name] = true
+			return
+		}
+		for _, a := range y.Call.Args {
+			if !isStorageType(a.Type()) {
+				continue
+			}
+			g := y.Call.StaticCallee()
+			if g == nil || !modLocal(g) {
+				continue
+			}
+			// the helper's result: which storage reads do its returned values depend on?
+			for _, rt := range returnsOf(g) {
+				for _, res := range rt.Results {
+					helperReads(g, res, 0, out)
+				}
+			}
+		}
+	}
+}
+
+// helperReads: storage methods whose results flow (through operators and the error tests that guard the return) into v.
+func helperReads(g *ssa.Function, v ssa.Value, depth int, out map[string]bool) {
+	if depth > 8 || v == nil {
+		return
+	}
+	switch y := v.(type) {
+	case *ssa.BinOp:
+		helperReads(g, y.X, depth+1, out)
+		helperReads(g, y.Y, depth+1, out)
+	case *ssa.UnOp:
+		helperReads(g, y.X, depth+1, out)
+	case *ssa.Phi:
+		for _, e := range y.Edges {
+			helperReads(g, e, depth+1, out)
+		}
+		for _, p := range y.Block().Preds {
+			if ifi := condOf(p); ifi != nil {
+				helperReads(g, ifi.Cond, depth+1, out)
+			}
+		}
+	case *ssa.Extract:
+		helperReads(g, y.Tuple, depth+1, out)
+	case *ssa.Convert:
+		helperReads(g, y.X, depth+1, out)
+	case *ssa.ChangeType:
+		helperReads(g, y.X, depth+1, out)
+	case *ssa.Call:
+		if rv := recvArg(&y.Call); rv != nil && isStorageType(rv.Type()) {
+			out[callID(&y.Call).Name] = true
+			return
+		}
+		for _, a := range y.Call.Args {
+			helperReads(g, a, depth+1, out)
+		}
 	}
 }
 
@@ -922,6 +1023,10 @@ func checkC05(c *Ctx, r *Report, tier string) {
 	hardStateAlwaysWritten(c, r, "C05.R9")
 	persistConsumesAllParts(c, r, "C05.R9")
 	walCompactionKeepsAnchor(c, r, "C05.R9")
+	r.Rule("C05.R10", "what raft finds after a crash is consistent: entries are staged before the hard state in one Save, a received snapshot wipes the whole log, snapshot and compaction are one batch; every Ready's committed entries are applied and its SoftState recorded", 5)
+	persistOrder(c, r, "C05.R10")
+	snapshotAndCompactionAtomic(c, r, "C05.R10")
+	readyPartsIndependent(c, r, "C05.R10")
 	// R7: Step error propagation
 	for _, f := range c.FuncsInPkg("storage/raft") {
 		if !c.isProd(f) {
